@@ -111,11 +111,16 @@ impl InstallManifestBuilder {
         self.entries.push(entry);
 
         // Resize all tag bit masks to accommodate new file
+        let new_index = self.entries.len() - 1;
         let new_bit_mask_size = self.entries.len().div_ceil(8);
         for tag in &mut self.tags {
             if tag.bit_mask.len() < new_bit_mask_size {
                 tag.bit_mask.resize(new_bit_mask_size, 0);
             }
+            // A new file starts without tags. Manifests written by other tools
+            // can have the padding bits of the last mask byte set (CDN install
+            // manifests do), so the bit is cleared explicitly.
+            tag.remove_file(new_index);
         }
 
         self
@@ -434,6 +439,41 @@ mod tests {
             .collect();
         assert_eq!(windows, vec![1]);
         InstallManifest::verify_round_trip(&data).expect("Operation should succeed");
+    }
+
+    #[test]
+    fn test_add_file_after_from_manifest_with_padding_bits() {
+        let key = ContentKey::from_hex("0123456789abcdef0123456789abcdef")
+            .expect("Operation should succeed");
+        let mut manifest = InstallManifestBuilder::new()
+            .add_tag("Windows".to_string(), TagType::Platform)
+            .add_tag("OSX".to_string(), TagType::Platform)
+            .add_file("a.bin".to_string(), key, 10)
+            .associate_file_with_tag(0, "Windows")
+            .expect("Operation should succeed")
+            .build()
+            .expect("Operation should succeed");
+        // Other tools set the unused bits of the last mask byte
+        for tag in &mut manifest.tags {
+            tag.bit_mask[0] |= 0x7f;
+        }
+
+        let rebuilt = InstallManifestBuilder::from_manifest(&manifest)
+            .add_file("b.bin".to_string(), key, 20)
+            .add_file_with_tags("c.bin".to_string(), key, 30, &["OSX"])
+            .expect("Operation should succeed")
+            .build()
+            .expect("Operation should succeed");
+
+        let files = |name: &str| -> Vec<usize> {
+            rebuilt
+                .get_files_for_tag(name)
+                .into_iter()
+                .map(|(i, _)| i)
+                .collect()
+        };
+        assert_eq!(files("Windows"), vec![0]);
+        assert_eq!(files("OSX"), vec![2]);
     }
 
     #[test]
